@@ -13,7 +13,7 @@ import (
 // Val is an abstract value of a type expression of the schema.
 type Val struct {
 	Big    *big.Int   // KUint, KInt, KNat, KNat32, KCoins, KVarUint
-	Bytes  []byte     // KBits
+	Bytes  []byte     // KBits (N bits left aligned; unused bits of the last byte are zero), KAddr
 	Bool   bool       // KBool; KMaybe: present; KEither: right
 	Std    bool       // KAddr: addr_std (else addr_none)
 	WC     int8       // KAddr
@@ -196,7 +196,13 @@ func (s *Schema) Draw(r *Rand, t *Type, st *Stats) *Val {
 		}
 		return &Val{Big: x}
 	case KBits:
-		return &Val{Bytes: r.bytes(t.N / 8)}
+		if t.N%8 == 0 {
+			return &Val{Bytes: r.bytes(t.N / 8)}
+		}
+		// a width that is not a whole number of bytes: the N bits, left aligned, the rest of the last byte zero
+		raw := r.bytes((t.N + 7) / 8)
+		raw[len(raw)-1] &= 0xff << uint(8-t.N%8)
+		return &Val{Bytes: raw}
 	case KBool:
 		return &Val{Bool: r.Intn(2) == 1}
 	case KCoins:
